@@ -493,6 +493,9 @@ func verifC20Valid(name string, variant int) *v1alpha1.DecoratorController {
 	switch variant {
 	case 0:
 		dc.Spec.Attachments = []v1alpha1.DecoratorControllerAttachmentRule{verifC20Attachment(verifC20ConfigMaps, "InPlace")}
+		// an out-of-range resync period (the CRD has no minimum): clamped when used
+		z := int32(0)
+		dc.Spec.ResyncPeriodSeconds = &z
 	case 1:
 		dc.Spec.Attachments = []v1alpha1.DecoratorControllerAttachmentRule{verifC20Attachment(verifC20ConfigMaps, "Recreate")}
 	case 2:
@@ -507,6 +510,8 @@ func verifC20Valid(name string, variant int) *v1alpha1.DecoratorController {
 	case 3:
 		dc.Spec.Resources = []v1alpha1.DecoratorControllerResourceRule{verifC20Parent(verifC20Widgets)}
 		dc.Spec.Attachments = []v1alpha1.DecoratorControllerAttachmentRule{verifC20Attachment(verifC20Pods, "")}
+		neg := int32(-3)
+		dc.Spec.ResyncPeriodSeconds = &neg
 	}
 	return dc
 }
